@@ -9,34 +9,10 @@
    non-overlapping calls, because every section lies within its call. *)
 From Coq Require Import List Arith NArith ZArith Bool Lia.
 From EV Require Import CLModel CLHeap CLOps CLRefine.
+From EV Require Export CLSec.
 From EV.gen Require GenCL.
 Import ListNotations.
 Local Open Scope nat_scope.
-
-Inductive sec :=
-| SBack (c : nat) (k : N)                       (* append's section *)
-| SFront (c : nat) (k : N)                      (* prepend's section *)
-| SBefore (c : nat) (k : N) (b : option nat)    (* insert's section: b = what the before-handle locked to *)
-| SRemove (x : option nat)                      (* remove's section: x = the handle's node, if any *)
-| SOwns (x : option nat).
-
-Definition is_live (g : group) (x : nat) : bool :=
-  match nth_error (heap g) x with Some nd => negb (N.eqb (ctr nd) GenCL.removed_marker) | None => false end.
-
-(* the code of the sections, as in CLConc.lcode_of *)
-Definition sec_step (g : group) (s : sec) : group * bool :=
-  match s with
-  | SBack c k => (g_link_back (fst (g_alloc g c k)) (length (heap g)), true)
-  | SFront c k => (g_link_front (fst (g_alloc g c k)) (length (heap g)), true)
-  | SBefore c k (Some b) =>
-      if is_live g b then (g_link_before (fst (g_alloc g c k)) (length (heap g)) b, true)
-      else (g_link_back (fst (g_alloc g c k)) (length (heap g)), true)
-  | SBefore c k None => (g_link_back (fst (g_alloc g c k)) (length (heap g)), true)
-  | SRemove (Some x) => if is_live g x then (g_unlink g x, true) else (g, false)
-  | SRemove None => (g, false)
-  | SOwns (Some x) => (g, is_live g x)
-  | SOwns None => (g, false)
-  end.
 
 (* the sequential list specification: ids in list order; n = the id the new entry gets *)
 Fixpoint ins_before_id (b n : nat) (l : list nat) : list nat :=
@@ -52,6 +28,7 @@ Definition sec_spec (n : nat) (ids : list nat) (s : sec) : list nat * bool :=
   | SRemove None => (ids, false)
   | SOwns (Some x) => (ids, existsb (Nat.eqb x) ids)
   | SOwns None => (ids, false)
+  | SEmpty => (ids, match ids with [] => true | _ => false end)
   end.
 
 Definition sec_counter_ok (s : sec) : Prop :=
@@ -85,7 +62,7 @@ Theorem section_refines g ids s :
   GInv (fst (sec_step g s)) (fst (sec_spec (length (heap g)) ids s)) /\
   snd (sec_step g s) = snd (sec_spec (length (heap g)) ids s).
 Proof.
-  intros G Hk. destruct s as [c k|c k|c k [b|]|[x|]|[x|]]; simpl in *.
+  intros G Hk. destruct s as [c k|c k|c k [b|]|[x|]|[x|]|]; simpl in *.
   - split; [|reflexivity]. apply (link_back_inv g ids c k G Hk).
   - split; [|reflexivity]. apply (link_front_inv g ids c k G Hk).
   - rewrite (is_live_iff g ids b G). destruct (existsb (Nat.eqb b) ids) eqn:E; simpl.
@@ -103,6 +80,7 @@ Proof.
   - auto.
   - split; [exact G|apply (is_live_iff g ids x G)].
   - auto.
+  - split; [exact G|]. rewrite (gi_head _ _ G). destruct ids; reflexivity.
 Qed.
 
 (* any interleaving: the sections run one at a time in SOME order; for every such order *)
@@ -124,7 +102,7 @@ Fixpoint spec_secs (n : nat) (ids : list nat) (l : list sec) : list nat * list b
 Lemma sec_step_heap_length g s :
   length (heap (fst (sec_step g s))) = match s with SBack _ _ | SFront _ _ | SBefore _ _ _ => S (length (heap g)) | _ => length (heap g) end.
 Proof.
-  destruct s as [c k|c k|c k [b|]|[x|]|[x|]]; simpl; try reflexivity.
+  destruct s as [c k|c k|c k [b|]|[x|]|[x|]|]; simpl; try reflexivity.
   - unfold g_link_back, g_alloc; simpl. destruct (ghead g); simpl; rewrite ?length_upd_o, ?length_upd, app_length; simpl; lia.
   - unfold g_link_front, g_alloc; simpl. destruct (ghead g); simpl; rewrite ?length_upd_o, ?length_upd, app_length; simpl; lia.
   - destruct (is_live g b); simpl.
